@@ -1,37 +1,80 @@
-(* C17: a relation between the in-memory and the etcd store model that every
-   operation of the proven fragment preserves, with equal answers.
-   Proven fragment: CreateTopic, CreatePartitions, UpdateOffsets, NextOffset,
-   CommitConsumerOffset, FetchConsumerOffset, LookupConsumerOffset, PutConsumerGroup,
-   FetchConsumerGroup, DeleteConsumerGroup, FetchTopicConfig, Metadata — for topic
-   names that are non-empty and contain no '/', any group id.
-   Not covered by this proof (covered by the differential correspondence check only):
-   DeleteTopic, UpdateTopicConfig and the two listing operations. *)
-From KS Require Import lib.Base lib.Strings lib.Paths model.MetaStore proofs.MetaStoreProofs proofs.MetaStoreKeys.
+(* C17: a relation between the in-memory and the etcd store model that every one of the
+   sixteen Store operations preserves, with equal answers, for group and topic names
+   that are non-empty and contain no '/' and int32 partitions. *)
+From KS Require Import lib.Base lib.Strings lib.Paths model.MetaStore
+  proofs.MetaStoreProofs proofs.MetaStoreKeys proofs.MetaStoreParse.
 Open Scope Z_scope.
 
-Definition topic_ok (t : bytes) : Prop := t <> [] /\ noslash t.
+(* ---------------------------------------------------------------- maps under a key translation *)
+Definition mapk {K V} (f : K -> bytes) (l : list (K * V)) : list (bytes * V) :=
+  map (fun kv => (f (fst kv), snd kv)) l.
 
-Definition op_in_fragment (o : op) : Prop :=
-  match o with
-  | OCreateTopic n _ _ | OCreatePartitions n _ => True
-  | OUpdateOffsets t _ _ | ONextOffset t _ | OFetchCfg t => topic_ok t
-  | OCommit _ t _ _ _ | OFetchOffset _ t _ | OLookupOffset _ t _ => topic_ok t
-  | OPutGroup _ | OFetchGroup _ | ODeleteGroup _ | OMetadata _ => True
-  | ODeleteTopic _ | OUpdateCfg _ | OListOffsets | OListGroups => False
-  | OUpdate _ _ => False
-  end.
+Section MapK.
+  Context {K V : Type} (eqb : K -> K -> bool) (f : K -> bytes) (P : K -> Prop).
+  Hypothesis eqb_spec : forall a b, eqb a b = true <-> a = b.
+  Hypothesis f_inj : forall a b, P a -> P b -> f a = f b -> a = b.
 
-Record R (im : inmem) (et : etcd) : Prop := mkR {
-  r_brokers : im_brokers (et_meta et) = im_brokers im;
-  r_topics : im_topics (et_meta et) = im_topics im;
-  r_cfgs : im_cfgs (et_meta et) = im_cfgs im;
-  r_nocfg : et_cfg et = [];
-  r_off : forall t p, noslash t -> aget pkey_eqb (t, p) (im_offsets im) = aget bytes_eqb (offset_key t p) (et_noff et);
-  r_coff : forall g t p, noslash t -> aget ckey_eqb (g, t, p) (im_coff im) = aget bytes_eqb (coff_key g t p) (et_coff et);
-  r_groups : forall id, aget bytes_eqb id (im_groups im) = aget bytes_eqb (group_key id) (et_groups et) }.
+  Lemma eqb_f a b : P a -> P b -> bytes_eqb (f a) (f b) = eqb a b.
+  Proof.
+    intros Pa Pb. destruct (eqb a b) eqn:E.
+    - apply eqb_spec in E. subst. apply bytes_eqb_refl.
+    - apply bytes_eqb_neq. intros H. apply f_inj in H; auto. subst.
+      rewrite (proj2 (eqb_spec b b) eq_refl) in E. discriminate.
+  Qed.
 
-Lemma R_init b : R (im_new b) (et_new b).
-Proof. constructor; intros; reflexivity. Qed.
+  Lemma aget_mapk k (l : list (K * V)) :
+    P k -> Forall P (map fst l) -> aget bytes_eqb (f k) (mapk f l) = aget eqb k l.
+  Proof.
+    intros Pk. induction l as [|[k' v] l IH]; intros Hl; [reflexivity|].
+    inversion Hl as [|? ? Pk' Hl']; subst. cbn [mapk map aget fst snd].
+    rewrite (eqb_f k k' Pk Pk'). destruct (eqb k k'); [reflexivity|]. now apply IH.
+  Qed.
+
+  Lemma aput_mapk k (v : V) (l : list (K * V)) :
+    P k -> Forall P (map fst l) -> mapk f (aput eqb k v l) = aput bytes_eqb (f k) v (mapk f l).
+  Proof.
+    intros Pk. induction l as [|[k' v'] l IH]; intros Hl; [reflexivity|].
+    inversion Hl as [|? ? Pk' Hl']; subst. cbn [mapk map aput fst snd].
+    rewrite (eqb_f k k' Pk Pk'). destruct (eqb k k'); [reflexivity|].
+    cbn [map fst snd]. f_equal. now apply IH.
+  Qed.
+
+  Lemma adel_if_mapk (drop : K -> bool) (drop' : bytes -> bool) (l : list (K * V)) :
+    (forall k, P k -> drop' (f k) = drop k) -> Forall P (map fst l) ->
+    mapk f (adel_if drop l) = adel_if drop' (mapk f l).
+  Proof.
+    intros Hd. unfold adel_if. induction l as [|[k' v'] l IH]; intros Hl; [reflexivity|].
+    inversion Hl as [|? ? Pk' Hl']; subst. cbn [mapk map filter fst snd].
+    rewrite (Hd k' Pk'). destruct (drop k'); cbn [negb map fst snd]; [now apply IH|].
+    f_equal. now apply IH.
+  Qed.
+
+  Lemma ok_aput k (v : V) (l : list (K * V)) :
+    P k -> Forall P (map fst l) -> Forall P (map fst (aput eqb k v l)).
+  Proof.
+    intros Pk. induction l as [|[k' v'] l IH]; intros Hl; cbn [aput map fst].
+    - constructor; auto.
+    - inversion Hl; subst. destruct (eqb k k'); cbn [map fst]; constructor; auto.
+  Qed.
+
+  Lemma ok_adel_if (drop : K -> bool) (l : list (K * V)) :
+    Forall P (map fst l) -> Forall P (map fst (adel_if drop l)).
+  Proof.
+    unfold adel_if. induction l as [|[k' v'] l IH]; intros Hl; [constructor|].
+    inversion Hl; subst. cbn [filter fst]. destruct (drop k'); cbn [negb map fst]; auto.
+  Qed.
+End MapK.
+
+(* ---------------------------------------------------------------- the relation *)
+Definition ck_str (k : ckey) : bytes := coff_key (fst (fst k)) (snd (fst k)) (snd k).
+Definition ck_ok (k : ckey) : Prop :=
+  name_ok (fst (fst k)) /\ name_ok (snd (fst k)) /\ int32_ok (snd k) = true.
+
+Lemma ck_str_inj a b : ck_ok a -> ck_ok b -> ck_str a = ck_str b -> a = b.
+Proof.
+  destruct a as [[g t] p], b as [[g' t'] p']. unfold ck_ok, ck_str. cbn [fst snd].
+  intros (_ & [_ Ht] & _) (_ & [_ Ht'] & _) E. apply coff_key_inj in E as (-> & -> & ->); auto.
+Qed.
 
 Lemma group_key_inj a b : group_key a = group_key b -> a = b.
 Proof.
@@ -39,91 +82,249 @@ Proof.
   now apply app_inv_tail in E.
 Qed.
 
+Definition op_ok (o : op) : Prop :=
+  match o with
+  | OCreateTopic _ _ _ | OMetadata _ | OListOffsets | OListGroups => True
+  | ODeleteTopic t | OCreatePartitions t _ | OUpdateOffsets t _ _ | ONextOffset t _ | OFetchCfg t => name_ok t
+  | OCommit g t p _ _ | OFetchOffset g t p | OLookupOffset g t p => name_ok g /\ name_ok t /\ int32_ok p = true
+  | OPutGroup g => noslash (g_id g)
+  | OFetchGroup id | ODeleteGroup id => name_ok id
+  | OUpdateCfg c => name_ok (c_name c)
+  | OUpdate _ _ => False
+  end.
+
+Record R (im : inmem) (et : etcd) : Prop := mkR {
+  r_brokers : im_brokers (et_meta et) = im_brokers im;
+  r_topics : im_topics (et_meta et) = im_topics im;
+  r_cfgs : im_cfgs (et_meta et) = im_cfgs im;
+  r_off : forall t p, noslash t ->
+          aget pkey_eqb (t, p) (im_offsets im) = aget bytes_eqb (offset_key t p) (et_noff et);
+  r_coff : et_coff et = mapk ck_str (im_coff im);
+  r_coff_ok : Forall ck_ok (map fst (im_coff im));
+  r_groups : et_groups et = mapk group_key (im_groups im);
+  r_groups_ok : Forall name_ok (map fst (im_groups im));
+  r_cfg : forall t, name_ok t ->
+          match aget bytes_eqb (topic_config_key t) (et_cfg et) with
+          | Some c => aget bytes_eqb t (im_cfgs im) = Some c /\ topic_parts im t <> None
+          | None => True
+          end }.
+
+Lemma R_init b : R (im_new b) (et_new b).
+Proof. constructor; intros; try reflexivity; try constructor. Qed.
+
 Lemma topic_parts_eq im et t : R im et -> topic_parts (et_meta et) t = topic_parts im t.
 Proof. intros H. unfold topic_parts. now rewrite (r_topics _ _ H). Qed.
 
 Lemma has_partition_eq im et t p : R im et -> has_partition (et_meta et) t p = has_partition im t p.
 Proof. intros H. unfold has_partition. now rewrite (topic_parts_eq _ _ _ H). Qed.
 
-(* the topic/config part of a store after CreateTopic / CreatePartitions depends only
-   on the brokers, topics and configs it had *)
-Lemma im_create_topic_meta a b n parts rf :
-  im_brokers a = im_brokers b -> im_topics a = im_topics b -> im_cfgs a = im_cfgs b ->
-  snd (im_create_topic a n parts rf) = snd (im_create_topic b n parts rf) /\
-  im_brokers (fst (im_create_topic a n parts rf)) = im_brokers (fst (im_create_topic b n parts rf)) /\
-  im_topics (fst (im_create_topic a n parts rf)) = im_topics (fst (im_create_topic b n parts rf)) /\
-  im_cfgs (fst (im_create_topic a n parts rf)) = im_cfgs (fst (im_create_topic b n parts rf)) /\
-  im_offsets (fst (im_create_topic a n parts rf)) = im_offsets a /\
-  im_coff (fst (im_create_topic a n parts rf)) = im_coff a /\
-  im_groups (fst (im_create_topic a n parts rf)) = im_groups a.
+(* ---------------------------------------------------------------- small facts *)
+Lemma aget_app_l {V} k (l1 l2 : list (bytes * V)) v :
+  aget bytes_eqb k l1 = Some v -> aget bytes_eqb k (l1 ++ l2) = Some v.
 Proof.
-  intros Hb Ht Hc. unfold im_create_topic, topic_parts. rewrite Hb, Ht, Hc.
-  destruct (negb (valid_topic_name n) || (parts <=? 0)); [cbn; auto 10|].
-  destruct (aget bytes_eqb n (im_topics b)); [cbn; auto 10|].
-  destruct (im_brokers b <? (if rf <=? 0 then 1 else rf)); cbn; auto 10.
+  induction l1 as [|[k' v'] l1 IH]; cbn; [discriminate|]. destruct (bytes_eqb k k'); auto.
 Qed.
 
-Lemma im_create_partitions_meta a b n cnt :
-  im_brokers a = im_brokers b -> im_topics a = im_topics b -> im_cfgs a = im_cfgs b ->
-  snd (im_create_partitions a n cnt) = snd (im_create_partitions b n cnt) /\
-  im_brokers (fst (im_create_partitions a n cnt)) = im_brokers (fst (im_create_partitions b n cnt)) /\
-  im_topics (fst (im_create_partitions a n cnt)) = im_topics (fst (im_create_partitions b n cnt)) /\
-  im_cfgs (fst (im_create_partitions a n cnt)) = im_cfgs (fst (im_create_partitions b n cnt)) /\
-  im_offsets (fst (im_create_partitions a n cnt)) = im_offsets a /\
-  im_coff (fst (im_create_partitions a n cnt)) = im_coff a /\
-  im_groups (fst (im_create_partitions a n cnt)) = im_groups a.
+Lemma aget_app_none {V} k (l1 l2 : list (bytes * V)) :
+  aget bytes_eqb k l1 = None -> aget bytes_eqb k (l1 ++ l2) = aget bytes_eqb k l2.
 Proof.
-  intros Hb Ht Hc. unfold im_create_partitions, topic_parts. rewrite Ht, Hc.
-  destruct n; [cbn; auto 10|].
-  destruct (cnt <=? 0); [cbn; auto 10|].
-  destruct (aget bytes_eqb (z :: n) (im_topics b)); [|cbn; auto 10].
-  destruct (cnt <=? z0); cbn; auto 10.
+  induction l1 as [|[k' v'] l1 IH]; cbn; [reflexivity|]. destruct (bytes_eqb k k'); [discriminate|auto].
 Qed.
 
+Lemma prefix_hits_offset n t p : noslash n -> noslash t ->
+  has_prefix (topic_delete_prefix n) (offset_key t p) = bytes_eqb n t.
+Proof.
+  intros Hn Ht. destruct (bytes_eqb n t) eqn:E.
+  - apply bytes_eqb_eq in E. subst. apply delete_prefix_own.
+  - apply bytes_eqb_neq in E. now apply delete_prefix_free.
+Qed.
+
+Lemma prefix_hits_cfg n t : noslash n -> noslash t ->
+  has_prefix (topic_delete_prefix n) (topic_config_key t) = bytes_eqb n t.
+Proof.
+  intros Hn Ht. destruct (bytes_eqb n t) eqn:E.
+  - apply bytes_eqb_eq in E. subst. apply (delete_prefix_own t 0).
+  - apply bytes_eqb_neq in E. now apply (delete_prefix_free n t 0).
+Qed.
+
+Lemma cfg_norm_idem c cur : cfg_norm (cfg_norm c cur) cur = cfg_norm c cur.
+Proof.
+  unfold cfg_norm. destruct (c_parts c =? 0) eqn:E.
+  - destruct c; cbn in *. destruct (cur =? 0); reflexivity.
+  - now rewrite E.
+Qed.
+
+Lemma cfg_norm_name c cur : c_name (cfg_norm c cur) = c_name c.
+Proof. unfold cfg_norm. destruct (c_parts c =? 0); reflexivity. Qed.
+
+Lemma valid_name_ok n : valid_topic_name n = true -> name_ok n.
+Proof. intros H. destruct (accepted_facts n H) as ((Hne & _) & Hs & _). split; assumption. Qed.
+
+(* listings *)
+Lemma list_offsets_eq (l : list (ckey * (Z * bytes))) :
+  Forall ck_ok (map fst l) ->
+  filter_map (fun e : bytes * (Z * bytes) => match parse_coff_key (fst e) with
+                     | Some k => Some (k, fst (snd e))
+                     | None => None
+                     end) (mapk ck_str l)
+  = map (fun e => (fst e, fst (snd e))) l.
+Proof.
+  induction l as [|[[[g t] p] v] l IH]; intros Hl; [reflexivity|].
+  inversion Hl as [|? ? Hk Hl']; subst. destruct Hk as (Hg & Ht & Hp). cbn [fst snd] in *.
+  unfold filter_map in *. cbn [mapk map flat_map fst snd]. unfold ck_str at 1. cbn [fst snd].
+  rewrite (parse_coff_key_build g t p Hg Ht Hp). cbn [app]. f_equal. now apply IH.
+Qed.
+
+Lemma list_groups_eq (l : list (bytes * group)) :
+  Forall name_ok (map fst l) ->
+  filter_map (fun e : bytes * group => match parse_group_key (fst e) with
+                     | Some _ => Some (snd e)
+                     | None => None
+                     end) (mapk group_key l)
+  = map snd l.
+Proof.
+  induction l as [|[id g] l IH]; intros Hl; [reflexivity|].
+  inversion Hl as [|? ? Hk Hl']; subst. cbn [fst] in Hk.
+  unfold filter_map in *. cbn [mapk map flat_map fst snd].
+  rewrite (parse_group_key_build id Hk). cbn [app]. f_equal. now apply IH.
+Qed.
+
+Ltac sf := cbn [set_topics set_offsets set_coff set_groups set_cfgs eset_meta eset_noff eset_cfg eset_pstate
+                eset_groups eset_coff im_brokers im_topics im_offsets im_coff im_groups im_cfgs
+                et_meta et_noff et_cfg et_pstate et_groups et_coff fst snd].
+
+(* ---------------------------------------------------------------- CreateTopic *)
+Lemma step_create_topic im et n parts rf : R im et ->
+  snd (im_step im (OCreateTopic n parts rf)) = snd (et_step et (OCreateTopic n parts rf)) /\
+  R (fst (im_step im (OCreateTopic n parts rf))) (fst (et_step et (OCreateTopic n parts rf))).
+Proof.
+  intros H. cbn [im_step et_step]. unfold im_create_topic, topic_parts.
+  rewrite (r_brokers _ _ H), (r_topics _ _ H), (r_cfgs _ _ H).
+  destruct (negb (valid_topic_name n) || (parts <=? 0)) eqn:Ev; [split; [reflexivity|sf; destruct H; constructor; sf; assumption]|].
+  destruct (aget bytes_eqb n (im_topics im)) eqn:Et; [split; [reflexivity|sf; destruct H; constructor; sf; assumption]|].
+  destruct (im_brokers im <? (if rf <=? 0 then 1 else rf)); [split; [reflexivity|sf; destruct H; constructor; sf; assumption]|].
+  split; [reflexivity|]. sf. destruct H. constructor; sf; try assumption; try reflexivity.
+  intros t Ht. specialize (r_cfg0 t Ht).
+    destruct (aget bytes_eqb (topic_config_key t) (et_cfg et)) as [c|]; [|exact I].
+    destruct r_cfg0 as [Hc Hp]. unfold topic_parts in *. sf.
+    assert (t <> n) as Hne by (intros ->; congruence).
+    rewrite (aget_aput_other _ bytes_eqb_eq _ _ _ _ Hne). split; [exact Hc|].
+    destruct (aget bytes_eqb t (im_topics im)) as [k|] eqn:E; [|congruence].
+    rewrite (aget_app_l _ _ _ _ E). discriminate.
+Qed.
+
+(* ---------------------------------------------------------------- CreatePartitions *)
+Lemma step_create_partitions im et n cnt : R im et -> name_ok n ->
+  snd (im_step im (OCreatePartitions n cnt)) = snd (et_step et (OCreatePartitions n cnt)) /\
+  R (fst (im_step im (OCreatePartitions n cnt))) (fst (et_step et (OCreatePartitions n cnt))).
+Proof.
+  intros H [Hne Hns]. cbn [im_step et_step]. unfold et_create_partitions, im_create_partitions.
+  rewrite (topic_parts_eq _ _ _ H). unfold topic_parts at 2. rewrite (r_topics _ _ H), (r_cfgs _ _ H).
+  destruct n as [|c0 n0]; [congruence|]. set (n := c0 :: n0) in *.
+  destruct (cnt <=? 0); [split; [reflexivity|exact H]|].
+  unfold topic_parts.
+  destruct (aget bytes_eqb n (im_topics im)) as [cur|] eqn:Et; [|split; [reflexivity|exact H]].
+  destruct (cnt <=? cur); [split; [reflexivity|exact H]|].
+  sf. pose proof (r_cfg _ _ H n (conj Hne Hns)) as Hcn.
+  destruct (aget bytes_eqb (topic_config_key n) (et_cfg et)) as [c|] eqn:Ec; sf; (split; [reflexivity|]).
+  - destruct Hcn as [Hc _]. rewrite Hc.
+    destruct H. constructor; sf; try assumption; try reflexivity;
+      try (now rewrite r_topics0); try (now rewrite ?r_cfgs0, ?Hc).
+    + intros t Ht. destruct (bytes_eqb t n) eqn:E.
+      * apply bytes_eqb_eq in E. subst t. rewrite !(aget_aput_same _ bytes_eqb_eq). split; [reflexivity|].
+        unfold topic_parts. sf. rewrite (aget_aput_same _ bytes_eqb_eq). discriminate.
+      * apply bytes_eqb_neq in E.
+        assert (topic_config_key t <> topic_config_key n) as Nk
+          by (intros Ek; apply (topic_config_key_inj t n (proj2 Ht) Hns) in Ek; contradiction).
+        rewrite (aget_aput_other _ bytes_eqb_eq _ _ _ _ Nk), (aget_aput_other _ bytes_eqb_eq _ _ _ _ E).
+        specialize (r_cfg0 t Ht). destruct (aget bytes_eqb (topic_config_key t) (et_cfg et)); [|exact I].
+        unfold topic_parts in *. sf. now rewrite (aget_aput_other _ bytes_eqb_eq _ _ _ _ E).
+  - destruct H. constructor; sf; try assumption; try reflexivity;
+      try (now rewrite r_topics0); try (now rewrite ?r_cfgs0).
+    + intros t Ht. destruct (bytes_eqb t n) eqn:E.
+      * apply bytes_eqb_eq in E. subst t. now rewrite Ec.
+      * apply bytes_eqb_neq in E. rewrite (aget_aput_other _ bytes_eqb_eq _ _ _ _ E).
+        specialize (r_cfg0 t Ht). destruct (aget bytes_eqb (topic_config_key t) (et_cfg et)); [|exact I].
+        unfold topic_parts in *. sf. now rewrite (aget_aput_other _ bytes_eqb_eq _ _ _ _ E).
+Qed.
+
+(* ---------------------------------------------------------------- UpdateTopicConfig *)
+Lemma step_update_cfg im et c : R im et -> name_ok (c_name c) ->
+  snd (im_step im (OUpdateCfg c)) = snd (et_step et (OUpdateCfg c)) /\
+  R (fst (im_step im (OUpdateCfg c))) (fst (et_step et (OUpdateCfg c))).
+Proof.
+  intros H [Hne Hns]. cbn [im_step et_step]. unfold et_update_cfg.
+  rewrite (topic_parts_eq _ _ _ H).
+  destruct (c_name c) as [|c0 n0] eqn:En; [congruence|]. set (n := c0 :: n0) in *.
+  assert (im_update_cfg im c = match topic_parts im n with
+            | None => (im, RErr EUnknownTopic)
+            | Some cur => (set_cfgs im (aput bytes_eqb n (cfg_norm c cur) (im_cfgs im)), RErr ENone)
+            end) as Eim by (unfold im_update_cfg; rewrite En; reflexivity).
+  rewrite Eim. clear Eim.
+  destruct (topic_parts im n) as [cur|] eqn:Et; [|split; [reflexivity|exact H]].
+  assert (im_update_cfg (et_meta et) (cfg_norm c cur)
+          = (set_cfgs (et_meta et) (aput bytes_eqb n (cfg_norm c cur) (im_cfgs (et_meta et))), RErr ENone)) as Eet.
+  { unfold im_update_cfg. rewrite cfg_norm_name, En. fold n.
+    rewrite (topic_parts_eq _ _ _ H), Et, cfg_norm_idem. reflexivity. }
+  rewrite Eet. clear Eet. sf. split; [reflexivity|].
+  destruct H. constructor; sf; try assumption; try reflexivity; try (now rewrite ?r_cfgs0).
+  intros t Ht. destruct (bytes_eqb t n) eqn:E.
+  - apply bytes_eqb_eq in E. subst t. rewrite !(aget_aput_same _ bytes_eqb_eq). split; [reflexivity|].
+    unfold topic_parts in *. sf. congruence.
+  - apply bytes_eqb_neq in E.
+    assert (topic_config_key t <> topic_config_key n) as Nk
+      by (intros Ek; apply (topic_config_key_inj t n (proj2 Ht) Hns) in Ek; contradiction).
+    rewrite (aget_aput_other _ bytes_eqb_eq _ _ _ _ Nk), (aget_aput_other _ bytes_eqb_eq _ _ _ _ E).
+    exact (r_cfg0 t Ht).
+Qed.
+
+(* ---------------------------------------------------------------- DeleteTopic *)
+Lemma step_delete_topic im et n : R im et -> name_ok n ->
+  snd (im_step im (ODeleteTopic n)) = snd (et_step et (ODeleteTopic n)) /\
+  R (fst (im_step im (ODeleteTopic n))) (fst (et_step et (ODeleteTopic n))).
+Proof.
+  intros H [Hne Hns]. cbn [im_step et_step]. unfold et_delete_topic, im_delete_topic.
+  rewrite (topic_parts_eq _ _ _ H).
+  destruct (topic_parts im n) as [cur|] eqn:Et; [|split; [reflexivity|exact H]].
+  sf. split; [reflexivity|].
+  destruct H. constructor; sf; try assumption; try reflexivity;
+    try (now rewrite ?r_topics0); try (now rewrite ?r_cfgs0).
+  - (* next offsets *)
+    intros t p Ht. unfold adel.
+    rewrite (aget_adel_if _ pkey_eqb_spec), (aget_adel_if _ bytes_eqb_eq). cbn [fst].
+    rewrite (prefix_hits_offset n t p Hns Ht).
+    destruct (bytes_eqb t n) eqn:E.
+    + apply bytes_eqb_eq in E. subst. now rewrite bytes_eqb_refl.
+    + apply bytes_eqb_neq in E. replace (bytes_eqb n t) with false
+        by (symmetry; apply bytes_eqb_neq; congruence). now apply r_off0.
+  - (* consumer offsets *)
+    rewrite r_coff0. symmetry.
+    apply (adel_if_mapk ck_str ck_ok (fun k : ckey => bytes_eqb (snd (fst k)) n) (coff_key_topic_is n)); [|exact r_coff_ok0].
+    intros [[g t] p] (Hg & Ht & Hp). unfold coff_key_topic_is, ck_str. cbn [fst snd] in *.
+    now rewrite (parse_coff_key_build g t p Hg Ht Hp).
+  - apply ok_adel_if. exact r_coff_ok0.
+  - (* configs *)
+    intros t Ht. unfold adel. rewrite (aget_adel_if _ bytes_eqb_eq), (prefix_hits_cfg n t Hns (proj2 Ht)).
+    destruct (bytes_eqb n t) eqn:E; [exact I|]. apply bytes_eqb_neq in E.
+    specialize (r_cfg0 t Ht). destruct (aget bytes_eqb (topic_config_key t) (et_cfg et)); [|exact I].
+    rewrite (aget_adel_if _ bytes_eqb_eq).
+    replace (bytes_eqb n t) with false by (symmetry; apply bytes_eqb_neq; exact E).
+    unfold topic_parts in *. sf. unfold adel. rewrite (aget_adel_if _ bytes_eqb_eq).
+    replace (bytes_eqb n t) with false by (symmetry; apply bytes_eqb_neq; exact E). exact r_cfg0.
+Qed.
+
+(* ---------------------------------------------------------------- all sixteen operations *)
 Theorem step_preserves im et o :
-  R im et -> op_in_fragment o ->
+  R im et -> op_ok o ->
   snd (im_step im o) = snd (et_step et o) /\ R (fst (im_step im o)) (fst (et_step et o)).
 Proof.
-  intros H Hf. destruct o; cbn in Hf; try contradiction.
-  - (* CreateTopic *)
-    cbn [im_step et_step].
-    destruct (im_create_topic_meta (et_meta et) im n parts rf (r_brokers _ _ H) (r_topics _ _ H) (r_cfgs _ _ H))
-      as (Er & Eb & Et & Ec & Eo & Eco & Eg).
-    destruct (im_create_topic_meta im im n parts rf eq_refl eq_refl eq_refl) as (_ & _ & _ & _ & Io & Ico & Ig).
-    destruct (im_create_topic (et_meta et) n parts rf) as [m' r'] eqn:E1.
-    destruct (im_create_topic im n parts rf) as [im' r] eqn:E2. cbn [fst snd] in *.
-    split; [congruence|].
-    constructor; cbn [eset_meta et_meta et_cfg et_noff et_coff et_groups]; try assumption.
-    + exact (r_nocfg _ _ H).
-    + intros t p Ht. rewrite Io. now apply (r_off _ _ H).
-    + intros g t p Ht. rewrite Ico. now apply (r_coff _ _ H).
-    + intros id. rewrite Ig. apply (r_groups _ _ H).
-  - (* CreatePartitions *)
-    cbn [im_step et_step]. unfold et_create_partitions.
-    rewrite (topic_parts_eq _ _ _ H).
-    destruct (im_create_partitions_meta (et_meta et) im n cnt (r_brokers _ _ H) (r_topics _ _ H) (r_cfgs _ _ H))
-      as (Er & Eb & Et & Ec & _ & _ & _).
-    destruct (im_create_partitions_meta im im n cnt eq_refl eq_refl eq_refl) as (_ & _ & _ & _ & Io & Ico & Ig).
-    destruct (im_create_partitions (et_meta et) n cnt) as [m' r'] eqn:E1. cbn [fst snd] in *. subst r'.
-    destruct n as [|c n]; [cbn; split; [reflexivity|exact H]|].
-    destruct (cnt <=? 0) eqn:Ecnt;
-      [unfold im_create_partitions; rewrite Ecnt; cbn; split; [reflexivity|exact H]|].
-    destruct (topic_parts im (c :: n)) as [cur|] eqn:Etp;
-      [|unfold im_create_partitions; rewrite Ecnt, Etp; cbn; split; [reflexivity|exact H]].
-    destruct (cnt <=? cur) eqn:Ecur;
-      [unfold im_create_partitions; rewrite Ecnt, Etp, Ecur; cbn; split; [reflexivity|exact H]|].
-    assert (snd (im_create_partitions im (c :: n) cnt) = RErr ENone) as Es
-      by (unfold im_create_partitions; rewrite Ecnt, Etp, Ecur; reflexivity).
-    rewrite Es. cbn [eset_meta eset_pstate et_cfg et_meta]. rewrite (r_nocfg _ _ H). cbn [aget].
-    split; [reflexivity|].
-    constructor; cbn [eset_meta eset_pstate et_meta et_cfg et_noff et_coff et_groups fst]; try assumption.
-    + exact (r_nocfg _ _ H).
-    + intros t p Ht. rewrite Io. now apply (r_off _ _ H).
-    + intros g t p Ht. rewrite Ico. now apply (r_coff _ _ H).
-    + intros id. rewrite Ig. apply (r_groups _ _ H).
+  intros H Hf. destruct o; cbn [op_ok] in Hf; try contradiction.
+  - now apply step_create_topic.
+  - now apply step_delete_topic.
+  - now apply step_create_partitions.
   - (* UpdateOffsets *)
-    cbn [im_step et_step fst snd]. split; [reflexivity|].
-    destruct H. constructor; cbn [set_groups eset_groups set_offsets eset_noff set_coff eset_coff im_brokers im_topics im_cfgs im_offsets im_coff im_groups et_meta et_cfg et_noff et_coff et_groups et_pstate]; try assumption.
+    cbn [im_step et_step]. sf. split; [reflexivity|].
+    destruct H. constructor; sf; try assumption.
     intros t' p' Ht'. destruct (pkey_eqb (t', p') (t, p)) eqn:E.
     + apply pkey_eqb_spec in E. inversion E; subst.
       rewrite (aget_aput_same _ pkey_eqb_spec), (aget_aput_same _ bytes_eqb_eq). reflexivity.
@@ -135,58 +336,73 @@ Proof.
       now apply r_off0.
   - (* NextOffset *)
     cbn [im_step et_step]. rewrite (has_partition_eq _ _ _ _ H).
-    destruct (has_partition im t p); cbn [fst snd]; (split; [|exact H]); [|reflexivity].
+    destruct (has_partition im t p); sf; (split; [|exact H]); [|reflexivity].
     now rewrite (r_off _ _ H t p (proj2 Hf)).
   - (* Commit *)
-    cbn [im_step et_step fst snd]. split; [reflexivity|].
-    destruct H. constructor; cbn [set_groups eset_groups set_offsets eset_noff set_coff eset_coff im_brokers im_topics im_cfgs im_offsets im_coff im_groups et_meta et_cfg et_noff et_coff et_groups et_pstate]; try assumption.
-    intros g' t' p' Ht'. destruct (ckey_eqb (g', t', p') (g, t, p)) eqn:E.
-    + apply ckey_eqb_spec in E. inversion E; subst.
-      rewrite (aget_aput_same _ ckey_eqb_spec), (aget_aput_same _ bytes_eqb_eq). reflexivity.
-    + assert ((g', t', p') <> (g, t, p)) as N1
-        by (intros Ek; rewrite Ek, (proj2 (ckey_eqb_spec _ _) eq_refl) in E; discriminate).
-      assert (coff_key g' t' p' <> coff_key g t p) as N2.
-      { intros Ek. apply coff_key_inj in Ek as (-> & -> & ->); [|exact Ht'|exact (proj2 Hf)]. now apply N1. }
-      rewrite (aget_aput_other _ ckey_eqb_spec _ _ _ _ N1), (aget_aput_other _ bytes_eqb_eq _ _ _ _ N2).
-      now apply r_coff0.
+    destruct Hf as (Hg & Ht & Hp).
+    cbn [im_step et_step]. sf. split; [reflexivity|].
+    assert (ck_ok (g, t, p)) as Hk by (repeat split; cbn [fst snd]; try apply Hg; try apply Ht; exact Hp).
+    destruct H. constructor; sf; try assumption.
+    + rewrite r_coff0. symmetry.
+      exact (aput_mapk ckey_eqb ck_str ck_ok ckey_eqb_spec ck_str_inj (g, t, p) (off, meta) _ Hk r_coff_ok0).
+    + now apply (ok_aput ckey_eqb ck_ok).
   - (* FetchOffset *)
-    cbn [im_step et_step]. unfold im_lookup, et_lookup. rewrite (r_coff _ _ H g t p (proj2 Hf)).
-    destruct (aget bytes_eqb (coff_key g t p) (et_coff et)) as [[o m]|]; cbn; auto.
+    destruct Hf as (Hg & Ht & Hp).
+    assert (ck_ok (g, t, p)) as Hk by (repeat split; cbn [fst snd]; try apply Hg; try apply Ht; exact Hp).
+    cbn [im_step et_step]. unfold im_lookup, et_lookup. rewrite (r_coff _ _ H).
+    change (coff_key g t p) with (ck_str (g, t, p)).
+    rewrite (aget_mapk ckey_eqb ck_str ck_ok ckey_eqb_spec ck_str_inj (g, t, p) _ Hk (r_coff_ok _ _ H)).
+    destruct (aget ckey_eqb (g, t, p) (im_coff im)) as [[o' m]|]; cbn; auto.
   - (* LookupOffset *)
-    cbn [im_step et_step]. unfold im_lookup, et_lookup. rewrite (r_coff _ _ H g t p (proj2 Hf)).
-    destruct (aget bytes_eqb (coff_key g t p) (et_coff et)) as [[o m]|]; cbn; auto.
+    destruct Hf as (Hg & Ht & Hp).
+    assert (ck_ok (g, t, p)) as Hk by (repeat split; cbn [fst snd]; try apply Hg; try apply Ht; exact Hp).
+    cbn [im_step et_step]. unfold im_lookup, et_lookup. rewrite (r_coff _ _ H).
+    change (coff_key g t p) with (ck_str (g, t, p)).
+    rewrite (aget_mapk ckey_eqb ck_str ck_ok ckey_eqb_spec ck_str_inj (g, t, p) _ Hk (r_coff_ok _ _ H)).
+    destruct (aget ckey_eqb (g, t, p) (im_coff im)) as [[o' m]|]; cbn; auto.
+  - (* ListOffsets *)
+    cbn [im_step et_step]. sf. split; [|exact H].
+    rewrite (r_coff _ _ H), (list_offsets_eq _ (r_coff_ok _ _ H)). reflexivity.
   - (* PutGroup *)
-    cbn [im_step et_step]. destruct (g_id g) as [|c id] eqn:Eid; cbn [fst snd]; [split; [reflexivity|exact H]|].
-    split; [reflexivity|]. destruct H. constructor; cbn [set_groups eset_groups set_offsets eset_noff set_coff eset_coff im_brokers im_topics im_cfgs im_offsets im_coff im_groups et_meta et_cfg et_noff et_coff et_groups et_pstate]; try assumption.
-    intros id'. destruct (bytes_eqb id' (c :: id)) eqn:E.
-    + apply bytes_eqb_eq in E. subst id'.
-      rewrite !(aget_aput_same _ bytes_eqb_eq). reflexivity.
-    + apply bytes_eqb_neq in E.
-      assert (group_key id' <> group_key (c :: id)) as N2 by (intros Ek; apply group_key_inj in Ek; contradiction).
-      rewrite (aget_aput_other _ bytes_eqb_eq _ _ _ _ E), (aget_aput_other _ bytes_eqb_eq _ _ _ _ N2).
-      apply r_groups0.
+    cbn [im_step et_step]. destruct (g_id g) as [|c id] eqn:Eid; sf; [split; [reflexivity|exact H]|].
+    split; [reflexivity|].
+    assert (name_ok (c :: id)) as Hk by (split; [discriminate|exact Hf]).
+    destruct H. constructor; sf; try assumption.
+    + rewrite r_groups0. symmetry.
+      exact (aput_mapk bytes_eqb group_key name_ok bytes_eqb_eq (fun a b _ _ => group_key_inj a b) (c :: id) g _ Hk r_groups_ok0).
+    + now apply (ok_aput bytes_eqb name_ok).
   - (* FetchGroup *)
-    cbn [im_step et_step fst snd]. rewrite (r_groups _ _ H). auto.
+    cbn [im_step et_step]. sf. split; [|exact H]. rewrite (r_groups _ _ H).
+    now rewrite (aget_mapk bytes_eqb group_key name_ok bytes_eqb_eq (fun a b _ _ => group_key_inj a b) id _ Hf (r_groups_ok _ _ H)).
+  - (* ListGroups *)
+    cbn [im_step et_step]. sf. split; [|exact H].
+    rewrite (r_groups _ _ H), (list_groups_eq _ (r_groups_ok _ _ H)). reflexivity.
   - (* DeleteGroup *)
-    cbn [im_step et_step fst snd]. split; [reflexivity|]. destruct H. constructor; cbn [set_groups eset_groups set_offsets eset_noff set_coff eset_coff im_brokers im_topics im_cfgs im_offsets im_coff im_groups et_meta et_cfg et_noff et_coff et_groups et_pstate]; try assumption.
-    intros id'. unfold adel. rewrite !(aget_adel_if _ bytes_eqb_eq).
-    destruct (bytes_eqb id id') eqn:E.
-    + apply bytes_eqb_eq in E. subst. now rewrite bytes_eqb_refl.
-    + apply bytes_eqb_neq in E.
-      destruct (bytes_eqb (group_key id) (group_key id')) eqn:E2; [|apply r_groups0].
-      apply bytes_eqb_eq in E2. apply group_key_inj in E2. contradiction.
+    cbn [im_step et_step]. sf. split; [reflexivity|].
+    destruct H. constructor; sf; try assumption.
+    + rewrite r_groups0. unfold adel. symmetry.
+      apply (adel_if_mapk group_key name_ok (bytes_eqb id) (bytes_eqb (group_key id))); [|exact r_groups_ok0].
+      intros k Hk. destruct (bytes_eqb id k) eqn:E.
+      * apply bytes_eqb_eq in E. subst. apply bytes_eqb_refl.
+      * apply bytes_eqb_neq. intros Ek. apply group_key_inj in Ek. apply bytes_eqb_neq in E. contradiction.
+    + apply ok_adel_if. exact r_groups_ok0.
   - (* FetchCfg *)
-    cbn [im_step et_step fst snd]. split; [|exact H]. unfold et_fetch_cfg.
+    cbn [im_step et_step]. sf. split; [|exact H]. unfold et_fetch_cfg.
     destruct t as [|c t]; [exfalso; now apply (proj1 Hf)|].
-    rewrite (r_nocfg _ _ H). cbn [aget]. unfold im_fetch_cfg.
-    now rewrite (topic_parts_eq _ _ _ H), (r_cfgs _ _ H).
+    pose proof (r_cfg _ _ H _ Hf) as Hc.
+    destruct (aget bytes_eqb (topic_config_key (c :: t)) (et_cfg et)) as [cf|].
+    + destruct Hc as [Hc Hp]. unfold im_fetch_cfg.
+      destruct (topic_parts im (c :: t)); [|congruence]. now rewrite Hc.
+    + unfold im_fetch_cfg. now rewrite (topic_parts_eq _ _ _ H), (r_cfgs _ _ H).
+  - (* UpdateCfg *)
+    now apply step_update_cfg.
   - (* Metadata *)
-    cbn [im_step et_step fst snd]. split; [|exact H]. unfold metadata_of, topic_parts.
+    cbn [im_step et_step]. sf. split; [|exact H]. unfold metadata_of, topic_parts.
     now rewrite (r_topics _ _ H).
 Qed.
 
 Theorem run_bisim ops : forall im et,
-  R im et -> Forall op_in_fragment ops ->
+  R im et -> Forall op_ok ops ->
   snd (im_run im ops) = snd (et_run et ops) /\ R (fst (im_run im ops)) (fst (et_run et ops)).
 Proof.
   induction ops as [|o ops IH]; intros im et H Hf; [split; [reflexivity|exact H]|].
